@@ -129,7 +129,22 @@ def run_cases(rng, n):
             evals += 1
             dist[f'{kind}/{trunc}'] = dist.get(f'{kind}/{trunc}', 0) + 1
             reuse = None
-            if rng.random() < 0.35:
+            Xuse = X
+            hist = rng.random()
+            if hist < 0.15:
+                # history: the same estimator object was fitted before on an array that the caller has since
+                # updated IN PLACE (same array object, new contents)
+                reuse = pykoop.Tsvd(truncation=trunc, truncation_param=param)
+                Xuse = rng.normal(size=X.shape)
+                if Xuse.shape == X.shape:
+                    try:
+                        reuse.fit(Xuse)
+                    except Exception:  # noqa
+                        pass
+                    Xuse[...] = X
+                else:
+                    reuse, Xuse = None, X
+            elif hist < 0.45:
                 # history: the same estimator object was fitted before on a smaller / other matrix
                 reuse = pykoop.Tsvd(truncation=trunc, truncation_param=param)
                 try:
@@ -137,7 +152,7 @@ def run_cases(rng, n):
                 except Exception:  # noqa
                     reuse = None
             try:
-                ok, info, full, r = check_one(rng, X, trunc, param, reuse)
+                ok, info, full, r = check_one(rng, Xuse, trunc, param, reuse)
             except Exception as e:  # noqa
                 import traceback
                 tb = traceback.format_exc()
